@@ -5,6 +5,7 @@ package model
 import (
 	"errors"
 
+	sdkcodec "github.com/cosmos/cosmos-sdk/codec"
 	"github.com/cosmos/cosmos-sdk/codec/types"
 	"github.com/cosmos/gogoproto/proto"
 
@@ -119,4 +120,14 @@ func JSONCodecFor() jsonCodec {
 		return NativeJSONCodec
 	}
 	return JSONCodec{}
+}
+
+// Replacements for the methods of the concrete *codec.ProtoCodec (engine only).
+func PCMarshal(_ *sdkcodec.ProtoCodec, o proto.Message) ([]byte, error) { return verif.Encode(o), nil }
+func PCMustMarshal(_ *sdkcodec.ProtoCodec, o proto.Message) []byte      { return verif.Encode(o) }
+func PCUnmarshal(_ *sdkcodec.ProtoCodec, bz []byte, ptr proto.Message) error {
+	return Codec{}.Unmarshal(bz, ptr)
+}
+func PCMustUnmarshal(_ *sdkcodec.ProtoCodec, bz []byte, ptr proto.Message) {
+	Codec{}.MustUnmarshal(bz, ptr)
 }
